@@ -100,7 +100,7 @@ func decodeDac3FromData(data []byte) (Box, error) {
 	b.BitRateCode = byte(br.Read(5))
 	// 5 bits reserved follows
 	b.Reserved = byte(br.Read(5))
-	return &b, nil
+	return &b, br.AccError()
 }
 
 // Type - box type
